@@ -1078,3 +1078,12 @@ mod tests {
         assert!(matches!(ops_tracker.ops[0], BranchOp::Insert(k,..) if k == key(0)));
     }
 }
+
+/// Verification accessor (compiled only with `--cfg nomt_verif`): a read-only view of the private state of the
+/// tracker (`ops`, the gauge, `valid_gauge`). Nothing here is used by the store itself.
+#[cfg(nomt_verif)]
+impl BranchOpsTracker {
+    pub fn verif_view(&self) -> (&[BranchOp], &BranchGauge, bool) {
+        (&self.ops, &self.gauge, self.valid_gauge)
+    }
+}
